@@ -322,6 +322,44 @@ Qed.
 
 End TreeTheory.
 
+(* Path.MtEntry on ANY parts (empty strings included): a field element or an error *)
+Theorem path_mt_entry_some_or_err P l : prim_ok P -> some_or_err (path_mt_entry all_guards P l).
+Proof. apply path_mt_entry_total. Qed.
+
+(* RDFEntry.UnmarshalBinary ; KeyValueMtEntries: two non-nil elements, or an error *)
+Theorem rdfentry_key_value_total P s :
+  prim_ok P -> p_prime P <> 0 ->
+  match rdfentry_key_value all_guards P s with
+  | Ok (Some _, Some _) | Err _ => True
+  | _ => False
+  end.
+Proof.
+  intros HP Hq. unfold rdfentry_key_value.
+  pose proof (rdfentry_unmarshal_total s) as H0.
+  destruct (rdfentry_unmarshal s) as [e| | |]; simpl in *; try exact I; try contradiction.
+  pose proof (path_mt_entry_total P (w_parts e) HP) as Hk.
+  destruct (path_mt_entry all_guards P (w_parts e)) as [[k|]| | |]; simpl in *; try exact I; try contradiction.
+  pose proof (mk_value_total P (w_val e) HP Hq) as Hv.
+  destruct (mk_value all_guards P (w_val e)) as [[v|]| | |]; simpl in *; try exact I; try contradiction.
+Qed.
+
+Example empty_key_part_is_an_error :
+  path_mt_entry all_guards demo_prim [WStr "urn:a"; WStr ""] = Err "empty-message"
+  /\ rdfentry_key_value all_guards demo_prim
+       [TInt 1; TParts [WStr ""]; TUint 2; TStr "v"; TStr ""] = Err "empty-message"
+  /\ fst (merklizer_unmarshal (list Z) (fun t k v => Some (k :: t)) all_guards demo_prim [] 300 None
+            [TInt 1; TBytes JObject; TBytes JObject; TBig 0; TInt 1; TStr "k";
+             TEntry [TInt 1; TParts [WStr "urn:a"; WStr ""]; TUint 2; TStr "v"; TStr ""]; TBool true])
+     = Err "empty-message".
+Proof. repeat split; vm_compute; reflexivity. Qed.
+
+(* without the guard (or with the guard on the value side only) an empty key part
+   sends a nil element into poseidon.Hash *)
+Lemma empty_key_part_refuted :
+  path_mt_entry no_empty_guard demo_prim [WStr "urn:a"; WStr ""]
+  = Panic "nil element passed to poseidon.Hash".
+Proof. vm_compute. reflexivity. Qed.
+
 (* refutations: the code before ca7ff03 and before 58805e9 *)
 Definition no_count_guard : guards := mkguards true false true true true true true true true true true.
 Definition demo_tadd (t : list Z) (k v : Z) : option (list Z) := Some (k :: t).
